@@ -102,6 +102,13 @@ package server
 //@   ghost computed bool = false
 //@   ghost got *tls.Certificate = nil
 //@   at after call GetCertificateWithContext#1: ghost got := callresult0
+//@   ghost fetched int = 0
+//@   ghost clock time.Time
+//@   ghost clockAfterFetch bool = false
+//@   at after call GetCertificateWithContext#*: ghost fetched := fetched + 1
+//@   at after call Now#*: ghost clock := callresult
+//@   at after call Now#*: ghost clockAfterFetch := fetched == 1
+//@   at call computeKeylessTTL#1: assert the-ttl-is-measured-from-a-clock-read-after-the-provider-returned: clockAfterFetch && callarg1 == clock
 //@   at call computeKeylessTTL#1: assert ttl-is-computed-for-the-returned-certificate: callarg0 == got && got != nil
 //@   at after call computeKeylessTTL#1: ghost ttl0 := callresult
 //@   at after call computeKeylessTTL#1: ghost computed := true
@@ -327,11 +334,16 @@ package server
 //@   at call All#1: ghost nlookup := len(callarg1)
 //@   at call All#2: assert routes-are-written-only-for-an-owned-hostname-by-the-certificate-identity: checked && owned && verifiedClient == certClient && hostname == req.Hostname && len(callarg1) == nlookup
 //@   at call All#2: ghost npublish := len(callarg1)
+//@   ghost lerrs []error
+//@   at after call All#1: ghost lerrs := callresult1
+//@   at call All#2: assert routes-are-written-only-when-every-requested-server-was-resolved: forall i int {lerrs[i]} :: (0 <= i && i < len(lerrs)) ==> lerrs[i] == nil
 //@   ensures local-unverified-caller-is-refused: aerr != nil ==> (err != nil && resp == nil && s.Chord.kvWrites == old(s.Chord.kvWrites))
 //@   ensures local-success-only-for-an-owned-hostname: err == nil ==> (checked && owned && npublish >= 1 && npublish <= 3)
 //@   ensures local-unowned-hostname-is-refused-before-any-route: (checked && !owned) ==> (err != nil && nlookup == -1 && npublish == -1)
 //@   loop 1: invariant jobs: -1 <= rangeindex && rangeindex < len(requested) && len(lookupJobs) == len(requested) && unchanged(requested)
 //@   loop 1: invariant kept: checked && owned && aerr == nil && verifiedClient == certClient && hostname == req.Hostname && nlookup == -1 && npublish == -1
+//@   loop 2: invariant every-lookup-so-far-succeeded: -1 <= rangeindex#2 && rangeindex#2 < len(errors) && lerrs == errors && (forall i int {errors[i]} :: (0 <= i && i <= rangeindex#2) ==> errors[i] == nil)
+//@   loop 3: invariant every-lookup-succeeded: lerrs == errors && (forall i int {errors[i]} :: (0 <= i && i < len(errors)) ==> errors[i] == nil)
 //@   loop 2: invariant kept: checked && owned && aerr == nil && verifiedClient == certClient && hostname == req.Hostname && nlookup == len(requested) && npublish == -1 && len(destinations) == nlookup && 1 <= nlookup && nlookup <= 3
 //@   loop 3: invariant jobs: -1 <= rangeindex#3 && rangeindex#3 < len(destinations) && len(publishJobs) == len(destinations)
 //@   loop 3: invariant kept: checked && owned && aerr == nil && verifiedClient == certClient && hostname == req.Hostname && npublish == -1 && len(destinations) == nlookup && 1 <= nlookup && nlookup <= 3
